@@ -355,16 +355,7 @@ impl<'g> Exec<'g> {
         let res = catch_unwind(AssertUnwindSafe(|| world.compile(rt, text)));
         let pres = catch_unwind(AssertUnwindSafe(|| jmespath::parse(text)));
         let (dbg, expr) = match res {
-            Ok(Ok(e)) => {
-                if e.as_str() != text {
-                    self.violate(
-                        "compile-deterministic",
-                        i,
-                        format!("as_str() of compiled {:?} is {:?}", text, e.as_str()),
-                    );
-                }
-                (format!("Ok({:?})", e.as_ast()), Some(e))
-            }
+            Ok(Ok(e)) => (format!("Ok({:?})", e.as_ast()), Some(e)),
             Ok(Err(e)) => (format!("Err({:?})", e), None),
             Err(p) => (format!("Panic({})", panic_msg(p)), None),
         };
@@ -540,9 +531,9 @@ impl<'g> Exec<'g> {
                 Op::CloneH { from, to } => {
                     let c = hs_[*from % H_SLOTS].as_ref().map(|h| {
                         let e2 = h.expr.clone();
+                        // the statement speaks of the tree and of behaviour, not of as_str()
                         let same = format!("{:?}", e2.as_ast()) == format!("{:?}", h.expr.as_ast())
-                            && e2.as_ast() == h.expr.as_ast()
-                            && e2.as_str() == h.expr.as_str();
+                            && e2.as_ast() == h.expr.as_ast();
                         (
                             Handle {
                                 expr: e2,
@@ -561,7 +552,7 @@ impl<'g> Exec<'g> {
                                 self.violate(
                                     "compile-deterministic",
                                     i,
-                                    format!("clone of {:?} has a different tree or text", h2.text),
+                                    format!("clone of {:?} has a different tree", h2.text),
                                 );
                             }
                             self.logline(i, format!("clone {} -> {} ({:?})", from, to, h2.text));
@@ -770,7 +761,7 @@ impl<'g> Exec<'g> {
                 if let Some(h) = h {
                     v.push((
                         format!("tree/literals of handle h{} ({:?})", n, h.text),
-                        hs(&format!("{:?}|{}", h.expr.as_ast(), h.expr.as_str())),
+                        hs(&format!("{:?}", h.expr.as_ast())),
                     ));
                 }
             }
